@@ -211,14 +211,22 @@ def main(mod_id, tier, seed):
     budget = float(os.environ.get('T4MC_BUDGET_S', '200' if tier == 'quick' else '3000'))
     findings = load_findings()
 
-    # oracle canaries
+    # oracle canaries.  A "-baseline" canary is one real state that must agree; when it does not, the code
+    # under test is broken at that state and the exploration below will report it - the oracle-mutation
+    # canaries are then meaningless and are skipped.  An oracle mutation that is not detected although the
+    # baseline agrees is a weakness of the harness: exit 2 unless the exploration reports violations.
     canary_results = []
+    canary_failed = []
     if hasattr(mod, 'canaries'):
-        canary_results = list(mod.canaries())
-        bad = [n for n, ok in canary_results if not ok]
-        if bad:
-            print('HARNESS-ERROR: oracle canaries not detected: %s' % bad)
-            return 2
+        try:
+            canary_results = list(mod.canaries())
+        except Exception as e:   # the converter may crash on the canary state of a broken tree
+            canary_results = [('canaries-raised-%s-baseline' % type(e).__name__, False)]
+        base_bad = [n for n, ok in canary_results if n.endswith('-baseline') and not ok]
+        if base_bad:
+            print('NOTE: canary baseline state(s) disagree: %s (oracle-mutation canaries skipped)' % base_bad)
+        else:
+            canary_failed = [n for n, ok in canary_results if not ok]
 
     scns = mod.scenarios(tier)
     enums = {s.name: explore.LevelEnumerator(s.build, s.bound(tier)) for s in scns}
@@ -411,4 +419,7 @@ def main(mod_id, tier, seed):
           % (mod_id, tier, agg['executions'], len(agg['keys']), len(agg['outs']),
              len(agg['nontrivial']), cov['transitions'], len(new_violations),
              sum(known_hit.values()), cap_hit, time.time() - t0))
+    if not rc and canary_failed:
+        print('HARNESS-ERROR: oracle canaries not detected: %s' % canary_failed)
+        return 2
     return rc or extra_rc
